@@ -82,7 +82,26 @@ func (t *T) String() string {
 // TermEnv resolves phis along a chosen path (phi -> chosen incoming value).
 type TermEnv struct {
 	Phi  map[*ssa.Phi]ssa.Value
+	Sub  map[ssa.Value]ssa.Value // inlined helpers: parameter -> argument, call result -> returned value
 	memo map[ssa.Value]*T
+}
+
+// Val follows the path's phi choices and inlining substitutions to the value that v stands for.
+func (e *TermEnv) Val(v ssa.Value) ssa.Value {
+	for i := 0; i < 32; i++ {
+		if s, ok := e.Sub[v]; ok {
+			v = s
+			continue
+		}
+		if ph, ok := v.(*ssa.Phi); ok {
+			if ch, ok := e.Phi[ph]; ok {
+				v = ch
+				continue
+			}
+		}
+		break
+	}
+	return v
 }
 
 func newTermEnv() *TermEnv { return &TermEnv{Phi: map[*ssa.Phi]ssa.Value{}, memo: map[ssa.Value]*T{}} }
@@ -110,6 +129,11 @@ func instrOrdinal(v ssa.Value) string {
 
 func (e *TermEnv) Term(v ssa.Value) *T {
 	if t, ok := e.memo[v]; ok {
+		return t
+	}
+	if s, ok := e.Sub[v]; ok {
+		t := e.Term(s)
+		e.memo[v] = t
 		return t
 	}
 	t := e.term(v)
